@@ -133,15 +133,16 @@ class VersionVal(Valuation):
 
 
 def check_root_resolved(ctx: Context, rep, rule: str) -> None:
-    """The handle's root is an absolute path from construction on (a relative
-    root would be re-interpreted against the working directory of every later
-    call)."""
+    """The handle's root is resolved (absolute, symbolic links followed) from
+    construction on: a relative root would be re-interpreted against the
+    working directory of every later call, an unresolved one fails the
+    resolved-vs-resolved containment test of the list loader."""
     init = ctx.fn(f"{BASE}.__init__")
     res_assign = [n for n in init.body_nodes() if isinstance(n, ast.Assign) and
                   dotted(n.targets[0]) == "self.path" and isinstance(
                       n.value, ast.Call) and isinstance(
                           n.value.func, ast.Attribute) and
-                  n.value.func.attr in ("resolve", "absolute")]
+                  n.value.func.attr == "resolve"]
     rep.ob(rule, len(res_assign) == 1, loc=init.loc(), where=init.qualname,
            construct="self.path = self.path.resolve()",
            message="the handle's root is resolved once, at construction")
